@@ -6,15 +6,15 @@ package vfkit
 
 import (
 	"bytes"
-	"os/exec"
-	"regexp"
-	"strconv"
 	"crypto/sha256"
 	"encoding/binary"
 	"fmt"
 	"os"
+	"os/exec"
 	"path/filepath"
+	"regexp"
 	"sort"
+	"strconv"
 	"strings"
 	"sync"
 	"syscall"
@@ -284,7 +284,6 @@ func CheckSave(
 
 	return cp
 }
-
 
 var (
 	reOpen   = regexp.MustCompile(`^(\d+)\s+openat\(AT_FDCWD, "([^"]+)", ([A-Z_|0-9]+)(?:, [0-7]+)?\)\s+= (\d+)`)
